@@ -110,6 +110,13 @@ def eval_ref(node):
         r = pgen.canon_pow(a, k)
         nb = max(na, 1.0) ** k if k else 1.0
         e = k * ea * max(na + ea, 1.0) ** max(k - 1, 0) * max(k, 1)
+        # the library simplifies every intermediate power (it squares and multiplies): a coefficient of some a**m, m < k,
+        # that lies below its 1e-8 zero tolerance is dropped there and is missing, times the remaining factors, at the end
+        pm = {(): 1 + 0j}
+        for m in range(1, k):
+            pm = pgen.canon_mul(pm, a)
+            tiny_m = sum(1 for v in pm.values() if 0 < abs(v) <= 2e-8)
+            e += k * 1e-8 * tiny_m * max(na, 1.0) ** (k - m)
     else:
         b, nbb, eb = eval_ref(node["b"])
         if op == "+":
